@@ -138,11 +138,66 @@ theorem shape_truediv' (σ₀ : Val) {a b e : Expr} (ha : Shape card leaf σ₀ 
   subst he
   exact ⟨rfl, ⟨ha.noOne, hb.noOne⟩, ⟨ha.pw, hb.pw⟩, ⟨ha.chain, hb.chain⟩, ⟨ha.frac, hb.frac, hne⟩⟩
 
+/-! ### factors -/
+
+theorem TrsoAux.so_factors_shape (σ₀ : Val) {a : Expr} (h : Shape card leaf σ₀ a) :
+    ∀ f ∈ factors a, Shape card leaf σ₀ f := by
+  cases a with
+  | prod fs => exact ((TrsoAux.so_shape_prod_iff σ₀ fs).1 h).2
+  | _ => intro f hf; simp only [factors, List.mem_singleton] at hf; subst hf; exact h
+
+theorem TrsoAux.so_factors_length {a : Expr} (h : PW a) : 1 ≤ (factors a).length := by
+  cases a with
+  | prod fs => have := h.1; simp only [factors]; omega
+  | _ => simp [factors]
+
+theorem TrsoAux.so_factors_clean {a : Expr} (h : Clean a) : ∀ f ∈ factors a, Clean f := by
+  cases a with
+  | prod fs => exact (cleanList_iff fs).1 h
+  | _ => intro f hf; simp only [factors, List.mem_singleton] at hf; subst hf; exact h
+
+theorem TrsoAux.so_factors_good (S : LeafSem card leaf) {a : Expr} (h : Good S a) : ∀ f ∈ factors a, Good S f := by
+  cases a with
+  | prod fs => exact (goodList_iff S fs).1 ⟨h.1, h.2⟩
+  | _ => intro f hf; simp only [factors, List.mem_singleton] at hf; subst hf; exact h
+
+theorem TrsoAux.so_denLProd_factors (a : Expr) (σ : Val) : denLProd card leaf (factors a) σ = denL card leaf a σ := by
+  cases a <;> simp [factors]
+
+/-- `a * b` for two clean expressions that are neither fractions nor `One()` is `Product.safe` of all the factors -/
+theorem TrsoAux.so_mul_eq {a b : Expr} (hca : Clean a) (hcb : Clean b) (hna : NoOne a) (hnb : NoOne b)
+    (hfa : isFrac a = false) (hfb : isFrac b = false) : mul a b = .ok (productSafe (factors a ++ factors b)) := by
+  unfold mul
+  generalize size a + size b = k
+  cases a <;> cases b <;> simp_all [mulF, Clean, NoOne, isFrac, factors]
+
 /-- `a * b` for two clean expressions that are neither fractions nor `One()`: the product of their factors -/
 theorem shape_mul_nonfrac (σ₀ : Val) {a b e : Expr} (ha : Shape card leaf σ₀ a) (hb : Shape card leaf σ₀ b)
     (hca : Clean a) (hcb : Clean b) (hfa : isFrac a = false) (hfb : isFrac b = false) (h : mul a b = .ok e) :
     Shape card leaf σ₀ e ∧ isFrac e = false ∧ (factors e).Perm (factors a ++ factors b) := by
-  sorry
+  rw [TrsoAux.so_mul_eq hca hcb ha.noOne hb.noOne hfa hfb] at h
+  have hsh : ∀ f ∈ factors a ++ factors b, Shape card leaf σ₀ f := by
+    intro f hf
+    rcases List.mem_append.1 hf with hf | hf
+    · exact TrsoAux.so_factors_shape σ₀ ha f hf
+    · exact TrsoAux.so_factors_shape σ₀ hb f hf
+  have hcl : ∀ f ∈ factors a ++ factors b, Clean f := by
+    intro f hf
+    rcases List.mem_append.1 hf with hf | hf
+    · exact TrsoAux.so_factors_clean hca f hf
+    · exact TrsoAux.so_factors_clean hcb f hf
+  have hlen : 2 ≤ (factors a ++ factors b).length := by
+    have h1 := TrsoAux.so_factors_length ha.pw
+    have h2 := TrsoAux.so_factors_length hb.pw
+    rw [List.length_append]; omega
+  have hne : factors a ++ factors b ≠ [] := by
+    intro h0; rw [h0] at hlen; simp at hlen
+  have heq := TrsoAux.so_productSafe_eq (fun f hf => TrsoAux.so_noOne_isOne (hsh f hf).noOne)
+    (fun f hf => clean_not_zero (hcl f hf)) hlen
+  have he : e = productSafe (factors a ++ factors b) := by cases h; rfl
+  refine ⟨he ▸ shape_productSafe σ₀ hne hsh, ?_, ?_⟩
+  · rw [he, heq]; rfl
+  · rw [he, heq]; exact TrsoAux.ssort_perm _ _
 
 /-- **`Fraction.simplify`** of `N / D` (neither a fraction): if the value of the fraction is below 1 and every factor
 of the denominator has a value at most 1, neither `One()` nor `1 / …` can come out -/
@@ -153,11 +208,60 @@ theorem shape_fracSimplify (S : LeafSem card leaf) (σ₀ : Val) {N D e : Expr} 
     Shape card leaf σ₀ e := by
   sorry
 
+mutual
+theorem TrsoAux.so_activate_ok {zs : List Name} {d : Pop} (hz : zs ≠ []) :
+    ∀ (e : Expr), Clean e → Raw e → NoOne e → ∃ e', activate zs d e = .ok e' ∧ Clean e'
+  | .prob none _ _, hc, _, _ => hc.elim
+  | .prob (some pop) c p, _, hr, _ => by
+    simp only [activate]
+    split
+    · exact ⟨.one, rfl, trivial⟩
+    · obtain ⟨c', hc'⟩ := interveneVars_ok hz
+        (vs := sortVars (c.filter (fun v => !(zs.any fun z => decide (Var.plain z = v))))) (fun w hw => by
+          have : w ∈ c := (List.mem_filter.1 ((mem_sortVars w _).1 hw)).1
+          exact hr.2 w (List.mem_append.2 (Or.inl this)))
+      obtain ⟨p', hp'⟩ := interveneVars_ok hz
+        (vs := sortVars (p.filter (fun v => !(zs.any fun z => decide (Var.plain z = v))))) (fun w hw => by
+          have : w ∈ p := (List.mem_filter.1 ((mem_sortVars w _).1 hw)).1
+          exact hr.2 w (List.mem_append.2 (Or.inr this)))
+      simp only [hc', hp', bind, Except.bind, pure, Except.pure]
+      exact ⟨_, rfl, trivial⟩
+  | .sum e r, hc, hr, hn => by
+    simp only [activate]
+    exact bind_ok_of (Q := Clean) (TrsoAux.so_activate_ok hz e hc hr.1 hn)
+      (fun a ha => ⟨_, rfl, clean_sumSafe false ha⟩)
+  | .frac n dn, hc, hr, hn => by
+    simp only [activate]
+    refine bind_ok_of (Q := Clean) (TrsoAux.so_activate_ok hz n hc.1 hr.1 hn.1) (fun n' hn' => ?_)
+    refine bind_ok_of (Q := Clean) (TrsoAux.so_activate_ok hz dn hc.2 hr.2 hn.2) (fun d' hd' => ?_)
+    refine bind_ok_of (Q := Clean) (truediv_ok hn' hd') (fun t ht => ?_)
+    split
+    · exact fracSimplify_ok ht.1 ht.2
+    · exact ⟨_, rfl, ht⟩
+  | .prod fs, hc, hr, hn => by
+    simp only [activate]
+    exact bind_ok_of (Q := CleanList) (TrsoAux.so_activateList_ok hz fs hc hr hn)
+      (fun a ha => ⟨_, rfl, clean_productSafe ha⟩)
+  | .one, _, _, hn => hn.elim
+  | .zero, hc, _, _ => hc.elim
+  | .q _ _, hc, _, _ => hc.elim
+theorem TrsoAux.so_activateList_ok {zs : List Name} {d : Pop} (hz : zs ≠ []) :
+    ∀ (es : List Expr), CleanList es → WfList RawLeaf PlainReg es → NoOneList es →
+      ∃ es', activate.activateList zs d es = .ok es' ∧ CleanList es'
+  | [], _, _, _ => ⟨[], by simp [activate.activateList], trivial⟩
+  | e :: es, hc, hr, hn => by
+    simp only [activate.activateList]
+    refine bind_ok_of (Q := Clean) (TrsoAux.so_activate_ok hz e hc.1 hr.1 hn.1) (fun a ha => ?_)
+    exact bind_ok_of (Q := CleanList) (TrsoAux.so_activateList_ok hz es hc.2 hr.2 hn.2)
+      (fun as has => ⟨_, rfl, ha, has⟩)
+end
+
 /-- **activation succeeds when there is no `One()`**: on a clean expression over plain regular variables without
 `One()`, `activate_domain_and_interventions` (with a non-empty set of interventions) returns an expression -/
 theorem activate_ok_of_noOne {zs : List Name} {d : Pop} (hz : zs ≠ []) {e : Expr} (hc : Clean e) (hr : Raw e)
     (hn : NoOne e) : ∃ e', activate zs d e = .ok e' := by
-  sorry
+  obtain ⟨e', he', _⟩ := TrsoAux.so_activate_ok (d := d) hz e hc hr hn
+  exact ⟨e', he'⟩
 
 end Trso
 end Y0
